@@ -344,3 +344,58 @@ Check C18_reopen_timestampsdirect_in_place.
 Print Assumptions C18_reopen_timestampsdirect_in_place.
 Check C18_reset_timestampsdirect.
 Print Assumptions C18_reset_timestampsdirect.
+
+(* ------------------------------------------------------------------ with rotation, Timestamps naming (rCURRENT); proofs in Flw/ReopenRotTs.v *)
+Require Import FL.Flw.ReopenRotTs.
+Local Open Scope Z_scope.
+
+(* somebody renames rCURRENT to a name outside the family (ts_member rejects it), then reopen_outputfile(): the call succeeds;
+   the renamed file holds exactly what was written since the last rotation (buffered tail included); the closed files are
+   untouched; the records of ops2 go to a new rCURRENT and further closed files; nothing is lost, duplicated or reordered.
+   The naming state survives: the rCURRENT created by the reopen is later closed under the time stamp ts1 of the MOVED file's
+   start, with the restart counter the moved file would have got - no name is used twice (keys_ok) *)
+Theorem C18_reopen_timestamps c crit t0 off ops1 ops2 moved :
+  tscfg c crit -> tag_ok c -> Forall basic_op ops1 -> Forall basic_op ops2 -> Forall tick_ok (ops1 ++ ops2) ->
+  (0 <= t0 + ts_e c off) -> (t0 + elapsed (ops1 ++ ops2) + ts_e c off < sec_max) ->
+  (N.of_nat (length (ops1 ++ ops2)) <= usize_max)%N ->
+  ts_member c moved = false -> wrote ops1 = true ->
+  let e := ts_e c off in
+  let x1 := fst (run (sys0 t0 off) (OStart c :: ops1)) in
+  let r := run (sys0 t0 off) (OStart c :: ops1 ++ [OExtRename (cname c) moved; OReopen] ++ ops2 ++ [OStop]) in
+  let f := wfs (s_w (fst r)) in
+  nth_error (snd r) (S (S (length ops1))) = Some (ObsRes 0 false)
+  /\ exists keys1 closed1 cur1 ts1 keys2 closed2 cur2,
+       ts_view c e (wfs (s_w (fst (run (sys0 t0 off) (OStart c :: ops1 ++ [OStop]))))) keys1 closed1 cur1
+       /\ concat closed1 ++ cur1 = written ops1
+       /\ ns_stamp x1 = Some ts1 /\ (t0 <= ts1 <= t0 + elapsed ops1)
+       /\ tsx_view c e f (keys1 ++ keys2) (closed1 ++ closed2) cur2 [(moved, cur1)]
+       /\ keys_ok (keys1 ++ keys2)
+       /\ (forall k, In k (keys1 ++ keys2) -> (t0 <= fst k <= t0 + elapsed (ops1 ++ ops2)))
+       /\ concat closed2 ++ cur2 = written ops2
+       /\ concat (closed1 ++ [cur1] ++ closed2 ++ [cur2]) = written (ops1 ++ ops2)
+       /\ (keys2 = [] \/ exists tl, keys2 = (ts1, count ts1 keys1) :: tl).
+Proof. exact (reopen_timestamps c crit t0 off ops1 ops2 moved). Qed.
+
+(* reopen_outputfile() with rCURRENT in place: the current file is continued, not truncated *)
+Theorem C18_reopen_timestamps_in_place c crit t0 off ops1 ops2 :
+  tscfg c crit -> tag_ok c -> Forall basic_op ops1 -> Forall basic_op ops2 -> Forall tick_ok (ops1 ++ ops2) ->
+  (0 <= t0 + ts_e c off) -> (t0 + elapsed (ops1 ++ ops2) + ts_e c off < sec_max) ->
+  (N.of_nat (length (ops1 ++ ops2)) <= usize_max)%N -> wrote ops1 = true ->
+  let e := ts_e c off in
+  let r := run (sys0 t0 off) (OStart c :: ops1 ++ [OReopen] ++ ops2 ++ [OStop]) in
+  let f := wfs (s_w (fst r)) in
+  nth_error (snd r) (S (length ops1)) = Some (ObsRes 0 false)
+  /\ exists keys1 closed1 cur1 keys2 closed2 cur2,
+       ts_view c e (wfs (s_w (fst (run (sys0 t0 off) (OStart c :: ops1 ++ [OStop]))))) keys1 closed1 cur1
+       /\ concat closed1 ++ cur1 = written ops1
+       /\ ts_view c e f (keys1 ++ keys2) (closed1 ++ closed2) cur2
+       /\ keys_ok (keys1 ++ keys2)
+       /\ (forall k, In k (keys1 ++ keys2) -> (t0 <= fst k <= t0 + elapsed (ops1 ++ ops2)))
+       /\ concat (closed1 ++ closed2) ++ cur2 = written (ops1 ++ ops2)
+       /\ (exists t, closed2 ++ [cur2] = (cur1 ++ t) :: List.tl (closed2 ++ [cur2])).
+Proof. exact (reopen_timestamps_in_place c crit t0 off ops1 ops2). Qed.
+
+Check C18_reopen_timestamps.
+Print Assumptions C18_reopen_timestamps.
+Check C18_reopen_timestamps_in_place.
+Print Assumptions C18_reopen_timestamps_in_place.
